@@ -68,7 +68,7 @@ def run(ctx):
     if model:
         if x.get('model_error'):
             ctx.broken.append('extracted model evaluator: ' + x['model_error'][:300])
-        if x.get('model_evaluated') != s['evaluations']:
+        if x.get('model_evaluated', 0) + x.get('model_skipped', 0) != s['evaluations']:
             ctx.broken.append('extracted model evaluated %s of %s inputs' % (x.get('model_evaluated'), s['evaluations']))
         if x.get('model_mismatches_total'):
             ctx.broken.append('correspondence C04 (extracted model vs LexExpression/ExprParser.Parse): %d of %d inputs disagree' % (x['model_mismatches_total'], s['evaluations']))
